@@ -437,13 +437,21 @@ def gen_compare(rng, cfg, n_cmp):
     if not any(p[0] == "p" for p in cfg.params) and sum(fixed) == 0:
         fixed[0] = 1
     sizes = {}
+    fixed_of = {}
     for k in range(3):
         cap = rng.choice([3, 4, 6])
-        lines.append("new v%d %d %d %s 1" % (k, cap, 64, fixed_text(fixed)))
+        # the third vector is sometimes built with other fixed sizes: same bytes, other field sizes must not compare equal
+        fx = list(fixed)
+        if k == 2 and cfg.nfixed() and rng.random() < 0.5:
+            fx = [rng.choice([0, 1, 2, 3]) for _ in fixed]
+            if not any(p[0] == "p" for p in cfg.params) and sum(fx) == 0:
+                fx[0] = 1
+        fixed_of[k] = fx
+        lines.append("new v%d %d %d %s 1" % (k, cap, 64, fixed_text(fx)))
         n = rng.choice([0, 1, 2, 2, 3])
         sizes[k] = 0
         for _ in range(n):
-            text, pay, _ = gen_elem(rng, cfg, fixed, 2, 20, vmax=2)
+            text, pay, _ = gen_elem(rng, cfg, fx, 2, 20, vmax=2)
             lines.append("emplace v%d %s" % (k, text))
             sizes[k] += 1
     # make one vector a copy-by-value of another now and then (equal content in different memory)
@@ -466,7 +474,7 @@ def gen_compare(rng, cfg, n_cmp):
                 sizes[a] -= 1
         else:
             if sizes[a] < 3:
-                text, pay, _ = gen_elem(rng, cfg, fixed, 2, 8, vmax=2)
+                text, pay, _ = gen_elem(rng, cfg, fixed_of[a], 2, 8, vmax=2)
                 lines.append("emplace v%d %s" % (a, text))
                 sizes[a] += 1
     lines.append("end")
